@@ -2,13 +2,13 @@ import Holpy.C06.Proofs2
 namespace Holpy.C06
 
 variable {K : Type} {N : Num K} {Q : Quant K}
-variable {σ : String → Val K} {F : String → Val K → Val K}
+variable {σ : String → Val K} {F : String → Val K → Val K} {O : Oracle K}
 
 /-- the postcondition of `rec`: the result means what the source term means -/
-def Sound (N : Num K) (Q : Quant K) (σ : String → Val K) (F : String → Val K → Val K) (t : H) (r : R) : Prop :=
-  ∀ ρ, evalR N Q (div0H N) σ F ρ r = evalH N Q σ F ρ t
+def Sound (N : Num K) (Q : Quant K) (O : Oracle K) (σ : String → Val K) (F : String → Val K → Val K) (t : H) (r : R) : Prop :=
+  ∀ ρ, evalR N Q (div0H N) σ F ρ r = evalH N Q O σ F ρ t
 
-theorem ofNatVar_good (x : String) : Good N σ (ofNatVarM x) (Sound N Q σ F (.ofNatVar x)) := by
+theorem ofNatVar_good (x : String) : Good N σ (ofNatVarM x) (Sound N Q O σ F (.ofNatVar x)) := by
   intro s res s' hrun
   unfold ofNatVarM at hrun
   split at hrun
@@ -29,7 +29,7 @@ theorem ofNatVar_good (x : String) : Good N σ (ofNatVarM x) (Sound N Q σ F (.o
     show σ _ = vtoReal N (σ x)
     exact ht x _ (lookup_append_none _ _ _ hl)
 
-theorem conv_good (hQ : Compat N Q) (t : H) : ∀ env, Good N σ (conv env t) (Sound N Q σ F t) := by
+theorem conv_good (hQ : Compat N Q) (t : H) : ∀ env, Good N σ (conv env t) (Sound N Q O σ F t) := by
   induction t with
   | var x T =>
     intro env; simp only [conv]
@@ -41,8 +41,12 @@ theorem conv_good (hQ : Compat N Q) (t : H) : ∀ env, Good N σ (conv env t) (S
     · exact Good.fail
   | num T q =>
     intro env; simp only [conv]
-    refine Good.pure fun ρ => ?_
-    by_cases h : T = .real <;> simp [h, evalR, evalZ, evalH]
+    by_cases hneg : (T == Ty.nat && decide (q.num < 0)) = true
+    · simp only [hneg, if_true]; exact Good.fail
+    · simp only [hneg, Bool.false_eq_true, if_false]
+      refine Good.pure fun ρ => ?_
+      simp only [evalH, hneg, Bool.false_eq_true, if_false]
+      by_cases h : T = .real <;> simp [h, evalR, evalZ]
   | tt => intro env; simp only [conv]; exact Good.pure fun ρ => rfl
   | ff => intro env; simp only [conv]; exact Good.pure fun ρ => rfl
   | not a iha =>
@@ -107,8 +111,8 @@ theorem conv_good (hQ : Compat N Q) (t : H) : ∀ env, Good N σ (conv env t) (S
     intro env; simp only [conv]
     exact Good.bind (iha env) fun _ => Good.bind (ihb env) fun _ => Good.bind (iha env) fun _ =>
       Good.bind (ihb env) fun _ => Good.fail
-  | eqFun => intro env; simp only [conv]; exact Good.fail
-  | unsup => intro env; simp only [conv]; exact Good.fail
+  | eqFun k => intro env; simp only [conv]; exact Good.fail
+  | unsup k => intro env; simp only [conv]; exact Good.fail
   | ite c a b ihc iha ihb =>
     intro env; simp only [conv]
     refine Good.bind (ihc env) fun c' => Good.bind (iha env) fun a' => Good.bind (ihb env) fun b' =>
@@ -163,14 +167,18 @@ theorem conv_good (hQ : Compat N Q) (t : H) : ∀ env, Good N σ (conv env t) (S
     have ha' := ha ρ; have hb' := hb ρ
     simp only [evalR] at ha' hb'
     rw [ha', hb']
-    cases evalH N Q σ F ρ a <;> cases evalH N Q σ F ρ b <;> rfl
-  | neg a iha =>
+    cases evalH N Q O σ F ρ a <;> cases evalH N Q O σ F ρ b <;> rfl
+  | neg isNat a iha =>
     intro env; simp only [conv]
-    refine Good.bind (iha env) fun a' => ?_
-    cases a' with
-    | pi n => exact Good.pure fun ha ρ => by show _ = vneg N (evalH N Q σ F ρ a); rw [← ha ρ]; rfl
-    | z e => exact Good.pure fun ha ρ => by show _ = vneg N (evalH N Q σ F ρ a); rw [← ha ρ]; rfl
-    | pb b => exact Good.fail
+    cases isNat
+    · simp only [Bool.false_eq_true, if_false]
+      refine Good.bind (iha env) fun a' => ?_
+      cases a' with
+      | pi n => exact Good.pure fun ha ρ => by show _ = vneg N (evalH N Q O σ F ρ a); rw [← ha ρ]; rfl
+      | z e => exact Good.pure fun ha ρ => by show _ = vneg N (evalH N Q O σ F ρ a); rw [← ha ρ]; rfl
+      | pb b => exact Good.fail
+    · simp only [if_true]
+      exact Good.fail
   | le a b iha ihb =>
     intro env; simp only [conv]
     refine Good.bind (iha env) fun a' => Good.bind (ihb env) fun b' => Good.liftE fun r hr hb ha ρ => ?_
@@ -191,7 +199,7 @@ theorem conv_good (hQ : Compat N Q) (t : H) : ∀ env, Good N σ (conv env t) (S
     intro env; simp only [conv]
     refine Good.bind (iha env) fun a' => ?_
     cases a' with
-    | z e => exact Good.pure fun ha ρ => by show _ = vtoReal N (evalH N Q σ F ρ a); rw [← ha ρ]; rfl
+    | z e => exact Good.pure fun ha ρ => by show _ = vtoReal N (evalH N Q O σ F ρ a); rw [← ha ρ]; rfl
     | pi n => exact Good.fail
     | pb b => exact Good.fail
   | max a b iha ihb =>
@@ -210,30 +218,26 @@ theorem conv_good (hQ : Compat N Q) (t : H) : ∀ env, Good N σ (conv env t) (S
     cases a' with
     | z e =>
       refine Good.pure fun ha ρ => ?_
-      show _ = vabs N isReal (evalH N Q σ F ρ a)
+      show _ = vabs N isReal (evalH N Q O σ F ρ a)
       rw [← ha ρ]
       cases isReal <;> rfl
     | pi n =>
       cases isReal
       · refine Good.pure fun ha ρ => ?_
-        show _ = vabs N false (evalH N Q σ F ρ a)
+        show _ = vabs N false (evalH N Q O σ F ρ a)
         rw [← ha ρ]
         rfl
       · exact Good.fail
     | pb b => exact Good.fail
   | app f dom cod a iha =>
     intro env; simp only [conv]
-    refine Good.bind (iha env) fun a' => ?_
-    cases a' with
-    | pb b => exact Good.fail
-    | pi n => exact Good.pure fun ha ρ => by show _ = F f (evalH N Q σ F ρ a); rw [← ha ρ]; rfl
-    | z e => exact Good.pure fun ha ρ => by show _ = F f (evalH N Q σ F ρ a); rw [← ha ρ]; rfl
+    refine Good.bind (iha env) fun a' => Good.pure fun ha ρ => ?_
+    show F f (evalZ N Q (div0H N) σ F ρ a'.toZ) = F f (evalH N Q O σ F ρ a)
+    rw [toZ_sem, ha ρ]
   | mem a S dom iha =>
     intro env; simp only [conv]
-    refine Good.bind (iha env) fun a' => ?_
-    cases a' with
-    | pb b => exact Good.fail
-    | pi n => exact Good.pure fun ha ρ => by show _ = F S (evalH N Q σ F ρ a); rw [← ha ρ]; rfl
-    | z e => exact Good.pure fun ha ρ => by show _ = F S (evalH N Q σ F ρ a); rw [← ha ρ]; rfl
+    refine Good.bind (iha env) fun a' => Good.pure fun ha ρ => ?_
+    show F S (evalZ N Q (div0H N) σ F ρ a'.toZ) = F S (evalH N Q O σ F ρ a)
+    rw [toZ_sem, ha ρ]
 
 end Holpy.C06
